@@ -122,6 +122,12 @@ class Part:
         for k, v in other.extra.items():
             if isinstance(v, (int, float)) and isinstance(self.extra.get(k, 0), (int, float)):
                 self.extra[k] = self.extra.get(k, 0) + v
+            elif isinstance(v, set):
+                cur = self.extra.get(k)
+                if not isinstance(cur, set):
+                    cur = set(cur or ())
+                cur |= v
+                self.extra[k] = cur
             elif isinstance(v, list):
                 cur = self.extra.setdefault(k, [])
                 for item in v:
@@ -272,8 +278,9 @@ def finish(ctx: Ctx, mod: Any) -> int:
         "wall_s": round(wall, 2),
         "violations": n_viol,
     }
-    os.makedirs(os.path.join(VERIF, "evidence"), exist_ok=True)
-    evpath = os.path.join(VERIF, "evidence", f"{ctx.pid}.json")
+    evdir = os.environ.get("VERIF_EVIDENCE_DIR") or os.path.join(VERIF, "evidence")
+    os.makedirs(evdir, exist_ok=True)
+    evpath = os.path.join(evdir, f"{ctx.pid}.json")
     if herr:
         # harness error: no evidence is better than wrong evidence
         if os.path.exists(evpath):
